@@ -78,6 +78,51 @@ fn gamma(a: Decimal) -> Option<Decimal> {
     }
 }
 
+/// Principal branch of the Lambert W function for x >= -1/e (NaN and +inf are returned unchanged).
+fn lambert_w0(x: f64) -> f64 {
+    if x.is_nan() || x == f64::INFINITY || x == 0.0 {
+        return x;
+    }
+    // Initial guess: branch-point series, a log1p based fit, or the asymptotic expansion.
+    let mut w = if x < -0.25 {
+        let p = (2.0 * (std::f64::consts::E * x + 1.0)).max(0.0).sqrt();
+        -1.0 + p - p * p / 3.0 + 11.0 / 72.0 * p * p * p
+    } else if x < 3.0 {
+        let l = x.ln_1p();
+        l * (1.0 - l.ln_1p() / (2.0 + l))
+    } else {
+        let l1 = x.ln();
+        let l2 = l1.ln();
+        l1 - l2 + l2 / l1
+    };
+    for _ in 0..64 {
+        #[cfg(feature = "verif_hooks")]
+        crate::verif_hooks::tick_loop();
+        let step = if x > 1e100 {
+            // w * e^w would overflow: solve w + ln(w) = ln(x) with Newton's method instead
+            (w + w.ln() - x.ln()) / (1.0 + 1.0 / w)
+        } else {
+            // Halley's method on w * e^w - x
+            let exp_w = w.exp();
+            let f = w * exp_w - x;
+            if f == 0.0 || w + 1.0 == 0.0 {
+                break;
+            }
+            f / (exp_w * (w + 1.0) - (w + 2.0) * f / (2.0 * w + 2.0))
+        };
+        let next = w - step;
+        if !next.is_finite() {
+            break;
+        }
+        let converged = (next - w).abs() <= 2e-16 * next.abs();
+        w = next;
+        if converged {
+            break;
+        }
+    }
+    w
+}
+
 pub fn eval(expr: Node) -> Result<Decimal, Box<dyn error::Error>> {
     #[cfg(feature = "verif_hooks")]
     crate::verif_hooks::tick();
@@ -161,21 +206,10 @@ pub fn eval(expr: Node) -> Result<Decimal, Box<dyn error::Error>> {
             if sub_expr < -Decimal::new(-1, 0).exp() {
                 return Err("The Lambert W function is not defined for {}.".into());
             }
-            let iterations = (Decimal::new(4, 0))
-                .max((sub_expr.log10() / Decimal::new(3, 0)).ceil())
-                .to_i32()
-                .unwrap_or(4);
-            let mut w = Decimal::ZERO;
-            for _ in 0..iterations {
-                #[cfg(feature = "verif_hooks")]
-                crate::verif_hooks::tick_loop();
-                let exp_w = w.exp();
-                w -= (w * exp_w - sub_expr)
-                    / (exp_w * (w + Decimal::new(1, 0))
-                        - (w + Decimal::new(2, 0)) * (w * exp_w - sub_expr)
-                            / (Decimal::new(2, 0) * w + Decimal::new(2, 0)));
-            }
-            Ok(w)
+            // The iteration is carried out in double precision: it converges to rounding error there
+            // and cannot leave the Decimal range on the way.
+            let x = sub_expr.to_f64().ok_or("Decimal overflow")?;
+            Ok(Decimal::from_f64(lambert_w0(x)).ok_or("Decimal overflow")?)
         }
         ILog(expr1, expr2) => {
             let mut n = eval(*expr1)?;
